@@ -3,6 +3,7 @@
 package sock
 
 import (
+	"bufio"
 	"bytes"
 	"encoding/binary"
 	"encoding/hex"
@@ -47,6 +48,10 @@ type c16Plan struct {
 	// middle of a frame)
 	StallAt int `json:"stall_at,omitempty"`
 	StallMs int `json:"stall_ms,omitempty"`
+	// tcp-send-stalled: the peer does not read for StallMs while one goroutine Sends Big frames of BigLen octets each
+	// (more than the connection buffers: the sender has to wait in the middle of a frame)
+	Big    int `json:"big,omitempty"`
+	BigLen int `json:"big_len,omitempty"`
 }
 
 const limit = 5 * time.Second
@@ -424,6 +429,8 @@ func c16RunInner(p c16Plan) *common.Fail {
 				}
 			}
 		}
+	case "tcp-send-stalled":
+		return c16SendStalled(p)
 	case "router-recv", "router-send":
 		// the multicast socket (ListenRouterOnInterface, loopback enabled) against a peer that is a member of the same group
 		probeMulticast()
@@ -653,6 +660,117 @@ func c16RunInner(p c16Plan) *common.Fail {
 // c16TunnelClose: "after Close the Inbound channel is closed and the receiver goroutine has ended", for the socket
 // inside a TCP tunnel: the gateway answers the connect request and writes Senders (2..6) well-formed frames in one
 // segment (optionally behind a disconnect response), which nobody reads; then the application closes the tunnel.
+// c16SendStalled: "every Send emits exactly one complete well-formed frame (one contiguous run of bytes on TCP)" when
+// the peer is slow to read: it stays away for StallMs while the client sends far more than the connection buffers, so
+// that a Send has to wait with a part of its frame handed to the kernel already. Whatever Send does about that
+// (wait, as the unchanged library does; give up), what the peer finds on the stream afterwards is a sequence of whole
+// frames: those of the Sends that reported success, each once, in order - and nothing of a Send that reported failure
+// except a whole frame.
+func c16SendStalled(p c16Plan) *common.Fail {
+	ln, err := net.Listen("tcp4", "127.0.0.1:0")
+	if err != nil {
+		return nil
+	}
+	defer ln.Close()
+	sock, err := knxnet.DialTunnelTCP(ln.Addr().String())
+	if err != nil {
+		return common.Failf("dial", "DialTunnelTCP: %v", err)
+	}
+	defer sock.Close()
+	pc, err := ln.Accept()
+	if err != nil {
+		return nil
+	}
+	defer pc.Close()
+	mk := func(i int) []byte {
+		n := p.BigLen - (i % 7)
+		b := make([]byte, n)
+		b[0], b[1], b[2], b[3] = 6, 0x10, 0x0f, 0x42
+		binary.BigEndian.PutUint16(b[4:], uint16(n))
+		binary.BigEndian.PutUint32(b[6:], uint32(i))
+		for k := 10; k < n; k++ {
+			b[k] = byte(k*31 + i*7)
+		}
+		return b
+	}
+	okSend := make([]atomic.Bool, p.Big)
+	var sendErr atomic.Value
+	done := make(chan struct{})
+	go func() {
+		defer close(done)
+		for i := 0; i < p.Big; i++ {
+			var sv knxnet.Service
+			if _, err := knxnet.Unpack(mk(i), &sv); err != nil {
+				return
+			}
+			sp, ok := sv.(knxnet.ServicePackable)
+			if !ok {
+				return
+			}
+			if err := sock.Send(sp); err != nil {
+				sendErr.Store(fmt.Sprintf("Send #%d: %v", i, err))
+				continue
+			}
+			okSend[i].Store(true)
+		}
+		sock.Close()
+	}()
+	time.Sleep(time.Duration(p.StallMs) * time.Millisecond)
+	// strict reader
+	rd := bufio.NewReaderSize(pc, 1<<20)
+	last := -1
+	seen := 0
+	for {
+		pc.SetReadDeadline(time.Now().Add(limit))
+		hdr := make([]byte, 10)
+		n, err := io.ReadFull(rd, hdr)
+		if err != nil {
+			if n == 0 && (err == io.EOF) {
+				break
+			}
+			if ne, ok := err.(net.Error); ok && ne.Timeout() {
+				return common.Failf("peer-read", "tcp peer that stayed away for %d ms: nothing more arrives after %d whole frames although the client is still sending or has not closed", p.StallMs, seen)
+			}
+			return common.Failf("stream-garbled", "tcp peer that stayed away for %d ms while the client sent %d frames of about %d octets: the stream ends with %d octets of a frame header (% x) after %d whole frames: %v (first failing Send: %v)", p.StallMs, p.Big, p.BigLen, n, hdr[:n], seen, err, sendErr.Load())
+		}
+		total := int(binary.BigEndian.Uint16(hdr[4:]))
+		idx := int(binary.BigEndian.Uint32(hdr[6:]))
+		if hdr[0] != 6 || hdr[1] != 0x10 || hdr[2] != 0x0f || hdr[3] != 0x42 || idx <= last || idx >= p.Big || total != p.BigLen-(idx%7) {
+			return common.Failf("stream-garbled", "tcp peer that stayed away for %d ms while the client sent %d frames of about %d octets: after %d whole frames (the last one #%d) the stream does not continue with the header of a later frame but with % x (first failing Send: %v)", p.StallMs, p.Big, p.BigLen, seen, last, hdr, sendErr.Load())
+		}
+		body := make([]byte, total-10)
+		if n, err := io.ReadFull(rd, body); err != nil {
+			return common.Failf("stream-garbled", "tcp peer that stayed away for %d ms: frame #%d (%d octets) is cut off after %d octets: %v (first failing Send: %v)", p.StallMs, idx, total, 10+n, err, sendErr.Load())
+		}
+		want := mk(idx)
+		if !bytes.Equal(body, want[10:]) {
+			k := 0
+			for k < len(body) && body[k] == want[10+k] {
+				k++
+			}
+			return common.Failf("stream-garbled", "tcp peer that stayed away for %d ms: frame #%d differs from what was sent from octet %d on (% x instead of % x) (first failing Send: %v)", p.StallMs, idx, 10+k, body[k:min(k+12, len(body))], want[10+k:min(10+k+12, len(want))], sendErr.Load())
+		}
+		for j := last + 1; j < idx; j++ {
+			if okSend[j].Load() {
+				return common.Failf("frame-lost", "tcp peer that stayed away for %d ms: Send #%d reported success but its frame is not on the stream (frame #%d follows #%d)", p.StallMs, j, idx, last)
+			}
+		}
+		last = idx
+		seen++
+	}
+	select {
+	case <-done:
+	case <-time.After(limit):
+		return common.Failf("send-hung", "tcp-send-stalled: the sender did not finish within 5 s after the peer had read everything")
+	}
+	for j := last + 1; j < p.Big; j++ {
+		if okSend[j].Load() {
+			return common.Failf("frame-lost", "tcp peer that stayed away for %d ms: Send #%d reported success but the stream ended after frame #%d", p.StallMs, j, last)
+		}
+	}
+	return nil
+}
+
 func c16TunnelClose(p c16Plan) *common.Fail {
 	base := receiverGoroutines()
 	ln, err := net.Listen("tcp4", "127.0.0.1:0")
@@ -1029,7 +1147,16 @@ func TestC16Slow(t *testing.T) {
 		pauses = []int{1100, 1700, 2600, 5500, 11000}
 	}
 	common.Drive(t, rec, func(rt *rapid.T) c16Plan {
-		p := c16Plan{Mode: rapid.SampledFrom([]string{"tcp-recv", "tcp-recv", "udp-recv", "router-recv"}).Draw(rt, "mode")}
+		p := c16Plan{Mode: rapid.SampledFrom([]string{"tcp-recv", "tcp-recv", "udp-recv", "router-recv", "tcp-send-stalled"}).Draw(rt, "mode")}
+		if p.Mode == "tcp-send-stalled" {
+			p.StallMs = rapid.SampledFrom(pauses).Draw(rt, "peer-away")
+			p.Big = rapid.IntRange(150, 260).Draw(rt, "big-frames")
+			p.BigLen = rapid.IntRange(50000, 65000).Draw(rt, "big-len")
+			rec.Class(fmt.Sprintf("tcp-send: peer away %d ms while 7..17 MB are sent", p.StallMs))
+			rec.NonTrivial(common.HashJSON(p))
+			rec.Sample("send-stalled", p)
+			return p
+		}
 		p.Frames = genFrames(rt, rapid.IntRange(2, 12).Draw(rt, "frames"), 600)
 		p.ReaderPauseMs = rapid.SampledFrom(pauses).Draw(rt, "reader-pause")
 		if p.Mode == "tcp-recv" {
